@@ -213,7 +213,25 @@ let rec val_of (x : sexp) : pyval =
              List.map (function L [L k; v] -> (cps k, val_of v) | _ -> failwith "kw") kwargs)
   | L [A "path"; c; L s] -> VPath (cls_of_sexp c, cps s)
   | L (A "repr" :: r) -> VRepr (cps r)
+  | L (A "std" :: rest) -> std_print (std_of rest)
   | _ -> failwith "val"
+and kvs_of l = List.map (function L [k; v] -> (val_of k, val_of v) | _ -> failwith "kv") l
+and order_of l = List.map (fun i -> nat_of_int (int_of_string (atom i))) l
+and std_of (l : sexp list) : stdval =
+  match l with
+  | [A "ordered"; c; L kvs] -> SOrdered (cls_of_sexp c, kvs_of kvs)
+  | [A "deque"; c; L els; ml] ->
+      SDeque (cls_of_sexp c, List.map val_of els, (match ml with A "none" -> None | x -> Some (zint x)))
+  | [A "default"; c; f; L kvs; L o] -> SDefault (cls_of_sexp c, val_of f, kvs_of kvs, order_of o)
+  | [A "counter"; c; L kvs; L o] -> SCounter (cls_of_sexp c, kvs_of kvs, order_of o)
+  | A "chain" :: c :: maps ->
+      SChain (cls_of_sexp c, List.map (function L [L kvs; L o] -> (kvs_of kvs, order_of o) | _ -> failwith "map") maps)
+  | [A "proxy"; c; L kvs; L o] -> SProxy (cls_of_sexp c, kvs_of kvs, order_of o)
+  | [A "exc"; c; L args] -> SExc (cls_of_sexp c, List.map val_of args)
+  | [A "partial"; c; f; L args; L kws] ->
+      SPartial (cls_of_sexp c, val_of f, List.map val_of args,
+                List.map (function L [L k; v] -> (cps k, val_of v) | _ -> failwith "kw") kws)
+  | _ -> failwith "std"
 let optz = function A "none" -> None | x -> Some (zint x)
 
 (* ---- object graphs ---- *)
